@@ -423,3 +423,53 @@ End HeapProofs.
 
 Lemma walk_app p l1 l2 : walk p (l1 ++ l2) = walk (walk p l1) l2.
 Proof. revert p; induction l1 as [|b t IH]; intros p; cbn; auto. Qed.
+
+(* one heap_get_move: consumes the bit below the most significant one *)
+Lemma get_move_spec n :
+  2 <= n ->
+  let L := Z.log2 n in
+  let b := fst (get_move n) in
+  let n' := snd (get_move n) in
+  1 <= L /\ Z.log2 n' = L - 1 /\ 1 <= n' /\
+  n = 2 ^ L + (if b then 1 else 0) * 2 ^ (L - 1) + (n' - 2 ^ (L - 1)).
+Proof.
+  intros Hn. cbn zeta.
+  assert (HL : 1 <= Z.log2 n) by (apply Z.log2_le_pow2; lia).
+  destruct (Z.log2_spec n) as [Lo Hi]; [lia|].
+  set (L := Z.log2 n) in *.
+  assert (Eh : 2 ^ L = 2 * 2 ^ (L - 1)).
+  { replace L with (Z.succ (L - 1)) at 1 by lia. rewrite Z.pow_succ_r by lia. reflexivity. }
+  assert (Es : 2 ^ Z.succ L = 2 * 2 ^ L) by (rewrite Z.pow_succ_r by lia; reflexivity).
+  assert (Hpos : 0 < 2 ^ (L - 1)) by (apply Z.pow_pos_nonneg; lia).
+  set (h := 2 ^ (L - 1)) in *.
+  unfold get_move. fold L. rewrite Eh.
+  replace (2 * h / 2) with h by (rewrite Z.mul_comm, Z.div_mul; lia).
+  destruct (n - h <? 2 * h) eqn:E; cbn [fst snd].
+  - split; [lia|]. split; [|lia]. apply Z.log2_unique; [lia|]. fold h.
+    replace (Z.succ (L - 1)) with L by lia. lia.
+  - split; [lia|]. split; [|lia]. apply Z.log2_unique; [lia|]. fold h.
+    replace (Z.succ (L - 1)) with L by lia. lia.
+Qed.
+
+(* the walk of heap_get from any position p: it appends the bits of n below the leading one *)
+Lemma get_path_walk fuel : forall n p,
+  1 <= n -> (Z.to_nat (Z.log2 n) < fuel)%nat ->
+  walk p (get_path fuel n) = p * 2 ^ Z.log2 n + (n - 2 ^ Z.log2 n).
+Proof.
+  induction fuel as [|f IH]; intros n p Hn Hf; [lia|].
+  cbn [get_path]. destruct (n =? 1) eqn:E1.
+  { assert (n = 1) by lia. subst n. cbn. lia. }
+  assert (H2 : 2 <= n) by lia.
+  destruct (get_move_spec n H2) as [HL [El [Hn' Eq]]].
+  destruct (get_move n) as [b n'] eqn:Em. cbn [fst snd] in *.
+  cbn [walk]. rewrite IH; [|lia|lia].
+  rewrite El.
+  assert (Eh : 2 ^ Z.log2 n = 2 * 2 ^ (Z.log2 n - 1)).
+  { replace (Z.log2 n) with (Z.succ (Z.log2 n - 1)) at 1 by lia. rewrite Z.pow_succ_r by lia. reflexivity. }
+  set (h := 2 ^ (Z.log2 n - 1)) in *. rewrite Eh in *. destruct b; lia.
+Qed.
+
+(* heap_get(head, n) reaches array position n *)
+Theorem heap_get_reaches n fuel :
+  1 <= n -> (Z.to_nat (Z.log2 n) < fuel)%nat -> walk 1 (get_path fuel n) = n.
+Proof. intros Hn Hf. rewrite get_path_walk by auto. lia. Qed.
